@@ -1,0 +1,36 @@
+//go:build verif
+
+package name
+
+// Hooks for part C14B of the C14 verification harness (add-only, thin
+// wrappers around unexported functions and read-only accessors).
+
+// VerifC14BGet exposes (*Table).get.
+func VerifC14BGet(t *Table, id ID) string { return t.get(id) }
+
+// VerifC14BSet exposes (*Table).set.
+func VerifC14BSet(t *Table, id ID, val string) { t.set(id, val) }
+
+// VerifC14BKeys exposes (*Table).keys.
+func VerifC14BKeys(t *Table) []ID { return t.keys() }
+
+// VerifC14BMaxID returns maxID.
+func VerifC14BMaxID() ID { return maxID }
+
+// VerifC14BAppleBCP returns a copy of the Macintosh language table.
+func VerifC14BAppleBCP() map[uint16]string {
+	res := make(map[uint16]string, len(appleBCP))
+	for k, v := range appleBCP {
+		res[k] = v
+	}
+	return res
+}
+
+// VerifC14BMsBCP returns a copy of the Windows language table.
+func VerifC14BMsBCP() map[uint16]string {
+	res := make(map[uint16]string, len(msBCP))
+	for k, v := range msBCP {
+		res[k] = v
+	}
+	return res
+}
